@@ -66,6 +66,10 @@ fn report(run: &Run, p: Prof, s: &str) {
     sc.frozen = true;
     if let Err(v) = check(p, &t, &mut sc) {
         run.violate(v);
+    } else if let Err(v) = check(p, s, &mut Local::scratch()) {
+        // the shrunk copy (a freshly allocated String) passes: the failure depends on the argument as it was handed over (e.g. the
+        // address of a &str view); reported as found
+        run.violate(v);
     }
 }
 
@@ -234,6 +238,12 @@ pub fn run(run: &Run) {
             false
         }
     }));
+    super::pipe::pointer_offset_sweep(run, &["\u{ff21}", "\u{ff41}\u{ff42}", "\u{ff76}\u{ff9e}", "\u{3000}", "\u{ffe6}", "\u{ff01}", "\u{ffbe}", "\u{e9}\u{ff21}"], &|s, l| {
+        for p in profs {
+            check(p, s, l)?;
+        }
+        Ok(())
+    });
     super::pipe::stress(run, "alignment_and_runs", &super::pipe::PAYLOADS_USER, &|s, l| {
         for p in profs {
             if check(p, s, l).is_err() {
